@@ -189,18 +189,21 @@ func reexecCase(s Spec, adv string, k int) (mm []Mismatch, events int) {
 	return
 }
 
-func workerReexec(set []Spec, w *bufio.Writer) {
+// workerReexec: executions 1..3 of one plan object per (spec, advance); the cases with k = 1 and k = 2 are the
+// prefixes of the k = 3 run (planning and execution are deterministic), so only k = 3 is run.
+func workerReexec(set []Spec, shard, nshards int, w *bufio.Writer) {
 	enc := json.NewEncoder(w)
 	var st histStats
-	for _, s := range set {
+	for i, s := range set {
+		if nshards > 0 && i%nshards != shard {
+			continue
+		}
 		for _, adv := range []string{"second", "day"} {
-			for k := 1; k <= 3; k++ {
-				mm, ev := reexecCase(s, adv, k)
-				st.Histories++
-				st.Events += int64(ev)
-				for _, m := range mm {
-					enc.Encode(m)
-				}
+			mm, ev := reexecCase(s, adv, 3)
+			st.Histories++
+			st.Events += int64(ev)
+			for _, m := range mm {
+				enc.Encode(m)
 			}
 		}
 	}
@@ -247,7 +250,7 @@ func workerMain(path string) {
 	case "hist":
 		workerHist(j.Depth, j.Shard, j.NShards, j.Start, j.End, j.Set, j.Base, time.Now().Add(time.Duration(j.BudgetS*float64(time.Second))), w)
 	case "reexec":
-		workerReexec(j.Set, w)
+		workerReexec(j.Set, j.Shard, j.NShards, w)
 	case "one": // a single history in a fresh process
 		enc.Encode(map[string]any{"outs": runHistory(j.Set, j.Schedule)})
 	case "reexec_one":
@@ -322,6 +325,9 @@ func plannerTypes(root any) []string {
 			}
 		}
 	}
+	if sp, ok := root.(safePlan); ok {
+		root = sp.Plan
+	}
 	walk(reflect.ValueOf(root), 0)
 	var out []string
 	for k := range seen {
@@ -376,6 +382,69 @@ func aggAttr(sql string) string {
 		return m[1]
 	}
 	return ""
+}
+
+var cteDefRe = regexp.MustCompile(`([A-Za-z_][A-Za-z0-9_]*) as \( SELECT`)
+var dateMaskRe = regexp.MustCompile(`'\d{4}-\d\d-\d\d'`)
+
+// cteDefs lists the WITH definitions (alias -> body, dates masked) of one statement, in order, duplicates kept.
+func cteDefs(sql string) (aliases []string, bodies map[string][]string) {
+	bodies = map[string][]string{}
+	for _, m := range cteDefRe.FindAllStringSubmatchIndex(sql, -1) {
+		alias := sql[m[2]:m[3]]
+		depth, i := 0, m[1]-len(" SELECT")-1
+		start := i
+		for ; i < len(sql); i++ {
+			if sql[i] == '(' {
+				depth++
+			} else if sql[i] == ')' {
+				depth--
+				if depth == 0 {
+					break
+				}
+			}
+		}
+		aliases = append(aliases, alias)
+		bodies[alias] = append(bodies[alias], dateMaskRe.ReplaceAllString(sql[start:min(i+1, len(sql))], "'D'"))
+	}
+	return
+}
+
+// withStructure: structural sanity of the WITH aliases of the re-executed statement relative to the fresh one:
+// an alias defined twice, or an alias that the fresh statement defines and that the re-executed statement still
+// references but no longer defines / defines as something else (Select.AddWith drops a WITH whose alias exists).
+func withStructure(got, want string) (class, what string) {
+	gs, ws := strings.Split(got, sep), strings.Split(want, sep)
+	for i := range gs {
+		if i >= len(ws) {
+			break
+		}
+		ga, gb := cteDefs(gs[i])
+		_, wb := cteDefs(ws[i])
+		for _, a := range ga {
+			if len(gb[a]) > 1 && len(wb[a]) <= 1 {
+				return "reexec_with_alias_defined_twice_" + sanitize(regexp.MustCompile(`_?\d+$`).ReplaceAllString(a, "")),
+					fmt.Sprintf("WITH %s is defined %d times in the re-executed statement", a, len(gb[a]))
+			}
+		}
+		for a, w := range wb {
+			ref := regexp.MustCompile(`(FROM|IN|IN \(|JOIN) ` + regexp.QuoteMeta(a) + `\b`).MatchString(gs[i])
+			if !ref {
+				continue
+			}
+			g := gb[a]
+			if len(g) == 0 {
+				return "reexec_with_alias_referenced_but_not_defined_" + sanitize(regexp.MustCompile(`_?\d+$`).ReplaceAllString(a, "")),
+					fmt.Sprintf("the re-executed statement reads WITH %s which it does not define (the fresh plan defines it)", a)
+			}
+			if len(w) == len(g) {
+				continue
+			}
+			return "reexec_with_alias_bound_to_another_select_" + sanitize(regexp.MustCompile(`_?\d+$`).ReplaceAllString(a, "")),
+				fmt.Sprintf("WITH %s has %d definition(s) in the re-executed statement and %d in the fresh one: a reference now reads a different sub-select (Select.AddWith keeps the first WITH of an alias and silently drops the second)", a, len(g), len(w))
+		}
+	}
+	return "", ""
 }
 
 // selfRefCTE reports the alias of a CTE whose body selects from itself (`X as ( ... FROM X as ...`).
@@ -551,6 +620,9 @@ func classify(m Mismatch) (class, what string) {
 		if g, w := aggAttr(m.Got), aggAttr(m.Want); g != "" && w != "" && g != w {
 			return "reexec_traceql_aggregated_attr_renamed", fmt.Sprintf("execution #%d of the plan of %s aggregates attribute %q, the first execution / a fresh plan %q (AttrConditionPlanner.aggregator strips one more prefix from a.AggregatedAttr on every execution)", m.Event+1, s.Q, g, w)
 		}
+		if c, w := withStructure(m.Got, m.Want); c != "" && m.Event > 0 && selfRefCTE(m.Got) == "" {
+			return c, fmt.Sprintf("execution #%d of the plan of %s: %s", m.Event+1, s.Q, w)
+		}
 		if a := selfRefCTE(m.Got); a != "" && selfRefCTE(m.Want) == "" && m.Event > 0 {
 			return "reexec_cte_defined_from_itself_" + sanitize(regexp.MustCompile(`_?\d+$`).ReplaceAllString(a, "")),
 				fmt.Sprintf("execution #%d of the plan of %s defines WITH %s in terms of itself (cached WITH of the previous execution reused as its own source)", m.Event+1, s.Q, a)
@@ -715,7 +787,82 @@ func main() {
 	r.Extra["specs"] = len(all)
 	r.Extra["core_specs"] = len(core)
 
-	// ---- phase 1: histories
+	// ---- phase 1: re-execution (16 worker processes; reference plans are fresh plans built in the same worker;
+	// phase 2 shows fresh plans to be history-independent).  Every execution gets a NEW PlannerContext and a
+	// new sql.Ctx, as Tail does on every tick.
+	rt0 := time.Now()
+	reSet := append(append([]Spec(nil), all...), pipelineSpecs()...)
+	reCases := int64(0)
+	benign := map[string]int{}
+	chsimVerdicts := map[string]int{}
+	var reMismatches []Mismatch
+	{
+		var wg sync.WaitGroup
+		for sh := 0; sh < 16; sh++ {
+			wg.Add(1)
+			go func(sh int) {
+				defer wg.Done()
+				out, err := spawn(job{Mode: "reexec", Set: reSet, Shard: sh, NShards: 16})
+				if err != nil {
+					ev.Fatal("reexec worker: %v", err)
+				}
+				mu.Lock()
+				defer mu.Unlock()
+				if err := parseLines(out, func(m Mismatch) { reMismatches = append(reMismatches, m) }, func(s histStats) {
+					reCases += s.Histories
+					r.States += s.Histories
+					r.Transitions += s.Events
+					r.TracesValidated += s.Events
+					r.AddEval(s.Events)
+				}); err != nil {
+					ev.Fatal("%v", err)
+				}
+			}(sh)
+		}
+		wg.Wait()
+	}
+	sort.SliceStable(reMismatches, func(i, j int) bool {
+		a, b := reMismatches[i], reMismatches[j]
+		if a.Specs[0].Key() != b.Specs[0].Key() {
+			return a.Specs[0].Key() < b.Specs[0].Key()
+		}
+		if a.Adv != b.Adv {
+			return a.Adv < b.Adv
+		}
+		return a.Event < b.Event
+	})
+	perClass := map[string]int{}
+	for _, m := range reMismatches {
+		c, w := classify(m)
+		r.Outcome("reexec:" + c)
+		perClass[c]++
+		if perClass[c] > 40 { // chsim execution and reporting for the first 40 of a class; all are counted
+			continue
+		}
+		mv := meaning(m) // both statement lists executed by chsim on the universal database
+		mk := mv
+		if i := strings.IndexByte(mk, ':'); i > 0 {
+			mk = mk[:i]
+		}
+		chsimVerdicts[c+" -> "+mk]++
+		if strings.HasPrefix(c, "benign_") {
+			if mk == "differ" || mk == "got_fails" {
+				r.Violate("reexec_judged_"+c+"_but_results_differ", w+" — but on the universal database: "+mv, m)
+				continue
+			}
+			benign[c]++
+			continue
+		}
+		r.Violate(c, w+" [chsim on the universal database: "+mv+"]", m)
+	}
+	r.Extra["reexec_specs"] = len(reSet)
+	r.Extra["reexec_cases"] = reCases
+	r.Extra["reexec_wall_s"] = time.Since(rt0).Seconds()
+	r.Extra["reexec_textual_differences_by_class"] = perClass
+	r.Extra["reexec_textual_differences_judged_same_meaning"] = benign
+	r.Extra["reexec_differences_executed_on_chsim"] = chsimVerdicts
+
+	// ---- phase 2: histories
 	type level struct {
 		set   []Spec
 		depth int
@@ -803,48 +950,6 @@ func main() {
 	}
 	r.Extra["history_levels"] = cov
 
-	// ---- phase 2: re-execution (one worker process; reference plans are fresh plans in the same process, which
-	// phase 1 has just shown to be history-independent)
-	rt0 := time.Now()
-	out, err := spawn(job{Mode: "reexec", Set: all})
-	if err != nil {
-		ev.Fatal("reexec worker: %v", err)
-	}
-	reCases := int64(0)
-	benign := map[string]int{}
-	chsimVerdicts := map[string]int{}
-	err = parseLines(out, func(m Mismatch) {
-		c, w := classify(m)
-		r.Outcome("reexec:" + c)
-		mv := meaning(m) // both statement lists executed by chsim on the universal database
-		mk := mv
-		if i := strings.IndexByte(mk, ':'); i > 0 {
-			mk = mk[:i]
-		}
-		chsimVerdicts[c+" -> "+mk]++
-		if strings.HasPrefix(c, "benign_") {
-			if mk == "differ" || mk == "got_fails" {
-				r.Violate("reexec_judged_"+c+"_but_results_differ", w+" — but on the universal database: "+mv, m)
-				return
-			}
-			benign[c]++
-			return
-		}
-		r.Violate(c, w+" [chsim on the universal database: "+mv+"]", m)
-	}, func(s histStats) {
-		reCases = s.Histories
-		r.States += s.Histories
-		r.Transitions += s.Events
-		r.TracesValidated += s.Events
-		r.AddEval(s.Events)
-	})
-	if err != nil {
-		ev.Fatal("%v", err)
-	}
-	r.Extra["reexec_cases"] = reCases
-	r.Extra["reexec_wall_s"] = time.Since(rt0).Seconds()
-	r.Extra["reexec_textual_differences_judged_same_meaning"] = benign
-	r.Extra["reexec_differences_executed_on_chsim"] = chsimVerdicts
 	r.Sample(map[string]any{"spec": all[1], "fresh_sql": base[all[1].Key()]})
 	r.Sample(map[string]any{"history": []string{core[0].Q, core[4].Q, core[10].Q}, "schedules": schedules})
 	r.Finish()
